@@ -180,6 +180,12 @@ def same_members(a, b):
     return set(a) == set(b)
 
 
+def as_items(d):
+    """View a dict typed Assoc(V) as its item list. Natively list(d.items()) (the real function receives a dict);
+    symbolically the identity (an Assoc value already is the list of pairs)."""
+    return list(d.items()) if isinstance(d, dict) else d
+
+
 def dict_put(d, k, v):
     """Pure dict update: a copy of d with d[k] = v (symbolically: Store)."""
     r = dict(d)
